@@ -31,6 +31,11 @@ def optNatArg? : Sexp → Option (Option Nat)
   | .atom "N" => some none
   | e => e.toNat?.map some
 
+/-- the number of datasets of a case: a number, or the list of dataset templates (one atom each). -/
+def nDataOf? : Sexp → Option Nat
+  | .list ts => some ts.length
+  | e => e.toNat?
+
 def vopOf? : Sexp → Option VOp
   | .list [.atom "app", d] => d.toNat?.map fun d => .col (.append d)
   | .list [.atom "rem", d] => d.toNat?.map fun d => .col (.remove d)
@@ -132,7 +137,7 @@ def restoreFails (cls : String) (v : VState) (op : VOp) : Bool :=
   op == .restore && (cls == "hi" || cls == "pr") && !v.arts.isEmpty
 
 def stepView (n c cls : Sexp) (ops : List Sexp) (pyout : Sexp) : String :=
-  match n.toNat?, c.toNat?, ops.mapM vopOf? with
+  match nDataOf? n, c.toNat?, ops.mapM vopOf? with
   | some n, some colors, some ops =>
     let cls := match cls with | .atom a => a | _ => ""
     let v0 := C18Viewer.init n colors
@@ -184,6 +189,56 @@ def kindSexp : Kind → Sexp
   | .datetime => .atom "dt"
   | .extended => .atom "ext"
 
+/-- the component an `ac` op adds: a kind atom, or `dask` (a `DaskComponent`: numerical). -/
+def acKindOf? : Sexp → Option Kind
+  | .atom "dask" => some CompClass.dask.kind
+  | e => kindOf? e
+
+def classAtom : CompClass → String
+  | .component => "Component"
+  | .categorical => "CategoricalComponent"
+  | .datetime => "DateTimeComponent"
+  | .derived => "DerivedComponent"
+  | .coordPixel => "CoordinateComponentPixel"
+  | .coordWorld => "CoordinateComponentWorld"
+  | .dask => "DaskComponent"
+  | .extended => "ExtendedComponent"
+
+def classOf? : Sexp → Option CompClass
+  | .atom a => CompClass.all.find? fun c => classAtom c == a
+  | _ => none
+
+/-- `CompClass.all` in the order of the class names (how the harness sorts its rows). -/
+def classesSorted : List CompClass :=
+  [.categorical, .component, .coordPixel, .coordWorld, .dask, .datetime, .derived, .extended]
+
+/-- `Kind.all` in the order of the kind atoms. -/
+def kindsSorted : List Kind := [.categorical, .datetime, .extended, .numerical]
+
+/-- the dataset templates of the harness (`harness/props/c18.py`, `TEMPLATES`):
+`std`  `Data(c=str, t=datetime64, x=float, coords=IdentityCoordinates(1))`;
+`reg`  `RegionData(regions=polygons, flux=float)` — `flux`, the two centre columns, the region column;
+`ext1` `Data(x=float)` + an `ExtendedComponent`;
+`dask` `Data(s=str)` + a `DaskComponent`;
+`drv`  2-d `Data(x)` with `AffineCoordinates` and a `DerivedComponent`;
+`bare` 2-d `Data(x)` without coordinates. -/
+def tmplOf? : Sexp → Option Tmpl
+  | .atom "std" => some ⟨[.categorical, .datetime, .numerical], 0, 1, 1⟩
+  | .atom "reg" => some ⟨[.numerical, .numerical, .numerical, .extended], 0, 1, 0⟩
+  | .atom "ext1" => some ⟨[.numerical, .extended], 0, 1, 0⟩
+  | .atom "dask" => some ⟨[.categorical, .numerical], 0, 1, 0⟩
+  | .atom "drv" => some ⟨[.numerical], 1, 2, 2⟩
+  | .atom "bare" => some ⟨[.numerical], 0, 2, 0⟩
+  | _ => none
+
+def stdT : Tmpl := ⟨[.categorical, .datetime, .numerical], 0, 1, 1⟩
+def bareT : Tmpl := ⟨[.numerical], 0, 2, 0⟩
+
+/-- a number `n` (= `n` default templates) or a list of template atoms. -/
+def tmplsOf? (dflt : Tmpl) : Sexp → Option (List Tmpl)
+  | .list ts => ts.mapM tmplOf?
+  | e => e.toNat?.map fun n => List.replicate n dflt
+
 def flagOf? : Sexp → Option FlagName
   | .atom "numeric" => some .numeric
   | .atom "datetime" => some .datetime
@@ -195,7 +250,7 @@ def flagOf? : Sexp → Option FlagName
   | _ => none
 
 def copOf? : Sexp → Option C18Combo.COp
-  | .list [.atom "ac", d, k] => do some (.addComp (← d.toNat?) (← kindOf? k))
+  | .list [.atom "ac", d, k] => do some (.addComp (← d.toNat?) (← acKindOf? k))
   | .list [.atom "ad", d] => d.toNat?.map .addDerived
   | .list [.atom "rc", d, i] => do some (.removeComp (← d.toNat?) (← i.toNat?))
   | .list [.atom "rn", d, i] => do some (.rename (← d.toNat?) (← i.toNat?))
@@ -269,9 +324,9 @@ def pyComboOk (relevant : List Nat) (depth : Nat) : Sexp → Bool
   | _ => false
 
 def stepCombo (n idx : Sexp) (ops : List Sexp) (pyout : Sexp) : String :=
-  match n.toNat?, idx.toInt?, ops.mapM copOf? with
-  | some n, some idx, some ops =>
-    let s0 := cinit n idx
+  match tmplsOf? stdT n, idx.toInt?, ops.mapM copOf? with
+  | some ts, some idx, some ops =>
+    let s0 := cinitT ts idx
     let states := (ops.foldl (fun (acc : List CState × CState) op =>
         let s' := cstep acc.2 op
         (acc.1 ++ [s'], s')) ([s0], s0)).1
@@ -290,9 +345,62 @@ def stepCombo (n idx : Sexp) (ops : List Sexp) (pyout : Sexp) : String :=
     let br := (if states.any (fun st => st.depth > 0) then "d" else "-") ++
               (if states.any (fun st => st.err) then "e" else "-") ++
               (if states.any (fun st => st.hdata.length > 1) then "m" else "-") ++
-              (if states.any (fun st => st.pick.sel.isSome) then "s" else "-")
+              (if states.any (fun st => st.pick.sel.isSome) then "s" else "-") ++
+              (if states.any (fun st => (st.hdata.map st.data).any fun d => d.main.any (·.2 == .extended)) then "x" else "-")
     driverResult (.list (states.map comboSnap)) ok implok p br
   | _, _, _ => driverError "combo-args"
+
+/-! ## family `kinds`: every component class / kind of the tree under test is known to the model and
+reachable by the generators
+
+`(kinds (enum) ((classes (name produced)…) (kinds k…)))`: the `Component` subclasses found by
+introspection (`CoordinateComponent` split by its `world` attribute), each with "an instance of it
+sits in one of the generator's datasets", and the strings `Data.get_kind` can return (read off its
+source).  Spec: every class is one of `CompClass`, is produced, every `CompClass` is there; every kind
+is one of `Kind` and every `Kind` is there.
+
+`(kinds (flags (b×7)) ((name v)…))`: a helper with these seven flags on all templates at once;
+`v` = `T` all components of the class are offered / `F` none / `X` some.  Spec: `v = classOk F cls`. -/
+
+def flagsOfList? : Sexp → Option Flags
+  | .list [a, b, c, d, e, f, g] => do
+    some ⟨← a.toBool?, ← b.toBool?, ← c.toBool?, ← d.toBool?, ← e.toBool?, ← f.toBool?, ← g.toBool?⟩
+  | _ => none
+
+def stepKinds (case pyout : Sexp) : String :=
+  match case with
+  | .list [.atom "enum"] =>
+    let impl := Sexp.list [tagged "classes" (classesSorted.map fun c => .list [.atom (classAtom c), ofBool true]),
+                           tagged "kinds" (kindsSorted.map kindSexp)]
+    let ok := match pyout with
+      | .list [.list (.atom "classes" :: rows), .list (.atom "kinds" :: ks)] =>
+        let cls := rows.map fun r => match r with
+          | .list [nm, pr] => (classOf? nm, pr.toBool?)
+          | _ => (none, none)
+        cls.all (fun r => r.1.isSome && r.2 == some true) &&
+        CompClass.all.all (fun c => cls.any fun r => r.1 == some c) &&
+        (ks.map kindOf?).all (·.isSome) && Kind.all.all (fun k => ks.any fun e => kindOf? e == some k)
+      | _ => false
+    driverResult impl ok true true "enum"
+  | .list [.atom "flags", fl] =>
+    match flagsOfList? fl with
+    | some F =>
+      let impl := Sexp.list (classesSorted.map fun c => .list [.atom (classAtom c), ofBool (classOk F c)])
+      let ok := match pyout with
+        | .list rows =>
+          let rs := rows.map fun r => match r with
+            | .list [nm, v] => (classOf? nm, v.toBool?)
+            | _ => (none, none)
+          rs.all (fun r => match r.1, r.2 with
+            | some c, some v => v == classOk F c
+            | _, _ => false) &&
+          CompClass.all.all (fun c => rs.any fun r => r.1 == some c)
+        | _ => false
+      -- (b): the model's own refresh on one-component datasets agrees with `classOk` (theorem class_offered_iff)
+      let implok := CompClass.all.all fun c => (refresh F [classDS c 7]).contains (.cid 7) == classOk F c
+      driverResult impl ok implok true "flags"
+    | none => driverError "kinds-flags"
+  | _ => driverError "kinds-args"
 
 /-! `(dcombo (nData auto idx (inDc…) (op …)) <snapshots>)`, snapshot =
 `((D d…) (M d…) (c choice…) (s sel) (e T|F) (q depth))`. -/
@@ -324,7 +432,7 @@ def pyDcomboOk (auto : Bool) (manual : List Nat) (depth : Nat) : Sexp → Bool
   | _ => false
 
 def stepDcombo (n auto idx inDc : Sexp) (ops : List Sexp) (pyout : Sexp) : String :=
-  match n.toNat?, auto.toBool?, idx.toInt?, inDc.toNats?, ops.mapM dopOf? with
+  match nDataOf? n, auto.toBool?, idx.toInt?, inDc.toNats?, ops.mapM dopOf? with
   | some n, some auto, some idx, some inDc, some ops =>
     let s0 := dinit n auto idx inDc
     let states := (ops.foldl (fun (acc : List DState × DState) op =>
@@ -424,14 +532,13 @@ end Combo
 
 `(vpick (nData nColors cls (op …)) <snapshots>)`; a snapshot is `(viewsnap (picker…))`: the viewer
 snapshot of family `view` plus one combo snapshot (format of family `combo`) per picker of the
-viewer state — scatter: `x_att` (default index 0), `y_att` (1); histogram: `x_att` (0).  Every
-dataset is 2-d without coordinates: component ids `3 d` (`x`, numerical), `3 d + 1`, `3 d + 2`
-(pixel axes).  The pickers are fed by `_layers_changed` with `state.layers_data`; the relevant
+viewer state — scatter: `x_att` (default index 0), `y_att` (1); histogram: `x_att` (0).  `nData` is
+a number (so many 2-d datasets without coordinates, template `bare`) or a list of template atoms
+(`tmplOf?`); component ids are numbered dataset after dataset in the order pixel, world, main,
+derived (`tmplTable`).  `(vfl p flag b)` sets a flag of the helper of picker `p`.  The pickers are fed by `_layers_changed` with `state.layers_data`; the relevant
 datasets are those of the layers, in layer order. -/
 section VPick
 open GlueVerif.C18Combo
-
-def vpDS (d : Nat) : DS := { id := d, main := [(3 * d, .numerical)], derived := [], pixel := [3 * d + 1, 3 * d + 2], world := [] }
 
 def vpFlags : Flags := { defaultFlags with pixel := true, world := true }
 
@@ -443,34 +550,61 @@ def layerDatasets (arts : List Art) : List Nat := dedup (arts.filterMap fun a =>
 
 def vpIdxs (cls : String) : List Int := if cls == "sc" then [0, 1] else [0]
 
-def pickSnap (hdata : List Nat) (choices : List Choice) (sel : Option Nat) : Sexp :=
-  .list [flagsSexp vpFlags, tagged "H" ((hdata.map vpDS).map dsSexp), tagged "c" (choices.map choiceSexp),
+def pickSnap (table : Nat → DS) (F : Flags) (hdata : List Nat) (choices : List Choice) (sel : Option Nat) : Sexp :=
+  .list [flagsSexp F, tagged "H" ((hdata.map table).map dsSexp), tagged "c" (choices.map choiceSexp),
          tagged "s" [optNatSexp sel], tagged "e" [ofBool false], tagged "q" [ofNat 0]]
 
+/-- a viewer op, or `(vfl p flag b)`: flag `flag` of the helper of picker `p` set to `b`. -/
+inductive VPOp where
+  | v (op : VOp)
+  | fl (p : Nat) (f : FlagName) (b : Bool)
+
+def vpopOf? : Sexp → Option VPOp
+  | .list [.atom "vfl", p, f, b] => do some (.fl (← p.toNat?) (← flagOf? f) (← b.toBool?))
+  | e => (vopOf? e).map .v
+
+abbrev PickRow := List Nat × Flags × List Choice × Option Nat
+
 def stepVPick (n c cls : Sexp) (ops : List Sexp) (pyout : Sexp) : String :=
-  match n.toNat?, c.toNat?, ops.mapM vopOf? with
-  | some n, some colors, some ops =>
+  match tmplsOf? bareT n, c.toNat?, ops.mapM vpopOf? with
+  | some ts, some colors, some ops =>
     let cls := match cls with | .atom a => a | _ => ""
     let idxs := vpIdxs cls
-    let v0 := C18Viewer.init n colors
-    let states := (ops.foldl (fun (acc : List VState × VState) op =>
-        let v' := C18Viewer.step acc.2 op
-        (acc.1 ++ [v'], v')) ([v0], v0)).1
+    let table := tmplTable ts 0 0
+    let v0 := C18Viewer.init ts.length colors
     -- the pickers: after every step the helper holds the datasets of the layers; echo keeps the
     -- selection if it is still offered
-    let picks := (states.foldl (fun (acc : List (List (List Nat × List Choice × Option Nat)) × List (Option Nat)) v =>
-        let hd := layerDatasets v.arts
-        let choices := refresh vpFlags (hd.map vpDS)
-        let sels := (idxs.zip acc.2).map fun (idx, prev) => choicesUpdated idx choices prev
-        (acc.1 ++ [sels.map fun s => (hd, choices, s)], sels)) ([], idxs.map fun _ => none)).1
+    let pickStep := fun (v : VState) (Fs : List Flags) (prev : List (Option Nat)) =>
+      let hd := layerDatasets v.arts
+      ((idxs.zip Fs).zip prev).map fun ((idx, F), pv) =>
+        let ch := refresh F (hd.map table)
+        ((hd, F, ch, choicesUpdated idx ch pv) : PickRow)
+    let F0 := idxs.map fun _ => vpFlags
+    let p0 := pickStep v0 F0 (idxs.map fun _ => none)
+    let trace := (ops.foldl (fun (acc : List (VState × List PickRow) × VState × List Flags × List PickRow) op =>
+        let v : VState := acc.2.1
+        let Fs : List Flags := acc.2.2.1
+        let ps : List PickRow := acc.2.2.2
+        let v' : VState := match op with
+          | .v o => C18Viewer.step v o
+          | .fl _ _ _ => { v with err := false }
+        -- the helpers' flags are configuration of the viewer-state class, not part of a saved session:
+        -- a restored viewer has the defaults again
+        let Fs' : List Flags := match op with
+          | .v o => if o == .restore then F0 else Fs
+          | .fl p f b => ((List.range Fs.length).zip Fs).map fun (x : Nat × Flags) => if x.1 == p then x.2.set f b else x.2
+        let ps' := pickStep v' Fs' (ps.map fun (r : PickRow) => r.2.2.2)
+        (acc.1 ++ [(v', ps')], (v', Fs', ps'))) ([(v0, p0)], (v0, F0, p0))).1
+    let states := trace.map (·.1)
+    let picks := trace.map (·.2)
     let named := (states.foldl (fun (acc : List (Sexp × Want) × Ren × Ren) v =>
         let ms := renExtend acc.2.1 (subIdsOf v)
         let ma := renExtend acc.2.2 (artIdsOf v)
         (acc.1 ++ [(snapshot ms ma v, renWant ms v.want)], ms, ma)) ([], [], [])).1
     let out := (named.zip picks).map fun ((vs, _), ps) =>
-      Sexp.list [vs, .list (ps.map fun (hd, ch, s) => pickSnap hd ch s)]
+      Sexp.list [vs, .list (ps.map fun (hd, F, ch, s) => pickSnap table F hd ch s)]
     let implok := states.all specOkV &&
-      picks.all fun ps => ps.all fun (hd, ch, s) => comboOk vpFlags (hd.map vpDS) ch s
+      picks.all fun ps => ps.all fun (hd, F, ch, s) => comboOk F (hd.map table) ch s
     let ok := match pyout with
       | .list pys => pys.length == named.length &&
           (pys.zip named).all fun (py, (_, w)) => match py with
@@ -481,13 +615,16 @@ def stepVPick (n c cls : Sexp) (ops : List Sexp) (pyout : Sexp) : String :=
                | none => false)
             | _ => false
       | _ => false
-    driverResult (.list out) ok implok true (viewBranch ops states)
+    let vops := ops.filterMap fun o => match o with | .v o => some o | _ => none
+    let hasExt := picks.any fun ps => ps.any fun (hd, _, _, _) => (hd.map table).any fun d => d.main.any (·.2 == .extended)
+    driverResult (.list out) ok implok true (viewBranch vops states ++ (if hasExt then "x" else "-"))
   | _, _, _ => driverError "vpick-args"
 
 end VPick
 
 def step (line : String) : String :=
   match Sexp.parse line with
+  | some (.list [.atom "kinds", case, pyout]) => stepKinds case pyout
   | some (.list [.atom "vpick", .list [n, c, cls, .list ops], pyout]) => stepVPick n c cls ops pyout
   | some (.list [.atom "view", .list [n, c, cls, .list ops], pyout]) => stepView n c cls ops pyout
   | some (.list [.atom "combo", .list [n, idx, .list ops], pyout]) => stepCombo n idx ops pyout
